@@ -569,7 +569,12 @@ func enumProto(t core.Tier) []any {
 				continue
 			}
 			for _, k := range kinds {
-				for _, cls := range claimFaultClasses(k) {
+				classes := claimFaultClasses(k)
+				if k == "providerGet" || k == "providerDelete" {
+					// a representative subset of the provider failure kinds (the single-pass ops enumerate all of them)
+					classes = []string{"err", "crash", "apiNotFound", "apiNotFoundBare", "ncnr", "wrapnf"}
+				}
+				for _, cls := range classes {
 					c := s
 					c.Events = append([]Event{}, s.Events...)
 					c.Events[i] = Event{Op: e.Op, Faults: map[string]string{k: cls}}
